@@ -1,1 +1,98 @@
-(* placeholder, being written *)
+(* C12 — Component, material and message wire encoding is lossless.
+   Statements only; every proof is `exact <lemma>`. Models: Codec/Schema.v (bincode over a
+   universe of wire schemas, the ReflectSerializer envelope) and Codec/ProtoCodec.v (the protocol
+   Message). Source tie: BSGen.ProtoLayout is regenerated from /repo/src/proto.rs and lib.rs on
+   every run and the message model is DEFINED over it; the schema of every component type is
+   derived by the harness from the real TypeRegistry and replayed against Schema.v.
+   NOT proved (checked by the correspondence runs only, REFLCHK flags): that `FromReflect`
+   rebuilds an equal concrete Rust value and that `reflect_partial_eq` holds. *)
+From Coq Require Import List NArith.
+From BS Require Import Codec.Schema Codec.SchemaProofs Codec.CodecTypes Codec.ProtoCodec Codec.ProtoCodecProofs.
+From BSGen Require Import ProtoLayout.
+Import ListNotations.
+Local Open Scope N_scope.
+
+(* ---- the code's declarative fragments are the ones the model was written for ---------- *)
+
+(* the wire layout of `enum Message` (variant order = wire index, fields, types) and of
+   `SyncConnectionParameters::Socket` *)
+Theorem C12_source_message_layout :
+  message_variants =
+  [(K_EntitySpawn, [(P_id, TBytes)]);
+   (K_EntityParented, [(P_entity_id, TBytes); (P_parent_id, TBytes)]);
+   (K_EntityDelete, [(P_id, TBytes)]);
+   (K_ComponentUpdated, [(P_id, TBytes); (P_name, TBytes); (P_data, TSeq (TInt 1))]);
+   (K_StandardMaterialUpdated, [(P_id, TBytes); (P_material, TSeq (TInt 1))]);
+   (K_MeshUpdated, [(P_id, TBytes); (P_url, TBytes)]);
+   (K_ImageUpdated, [(P_id, TBytes); (P_url, TBytes)]);
+   (K_AudioUpdated, [(P_id, TBytes); (P_url, TBytes)]);
+   (K_PromoteToHost, []);
+   (K_NewHost, [(P_params, TEnum [TTuple [TEnum [TArr 4 (TInt 1); TArr 16 (TInt 1)]; TInt 2; TInt 2; TInt 8]])]);
+   (K_RequestInitialSync, []);
+   (K_FinishedInitialSync, [])]
+  /\ map fst sync_params_fields = [S_ip; S_port; S_web_port; S_max_transfer].
+Proof. exact source_message_layout. Qed.
+
+(* ---- the property, messages ----------------------------------------------------------------- *)
+
+(* Every protocol message of every kind, with any field values (uuids, strings and blobs of any
+   length, either address family, all port and size values): encoding succeeds, and decoding the
+   bytes -- followed by anything -- returns exactly that message. *)
+Theorem C12_message_roundtrip :
+  forall m, wf_msg m -> exists bs, encode m = Some bs /\ forall rest, decode (bs ++ rest) = Some m.
+Proof. exact ProtoCodecProofs.C12_message_roundtrip. Qed.
+
+Theorem C12_message_bytes_determine_message :
+  forall m1 m2 bs, encode m1 = Some bs -> encode m2 = Some bs -> m1 = m2.
+Proof. exact encode_injective. Qed.
+
+(* ---- the property, components and materials ------------------------------------------------- *)
+
+(* For EVERY wire schema (any nesting of structs, tuple structs, enums, options, lists, arrays,
+   maps, strings, chars, integers and floats of every width) and every value of it, under any
+   type path: the bytes of `reflect_to_bin` decode -- on a peer that resolves the path to the
+   same schema, whatever bytes follow -- to the same path and the same value, and whatever the
+   decoder returns on those bytes re-encodes to the same bytes. *)
+Theorem C12_component_roundtrip :
+  forall lookup path t v,
+  lookup path = Some t -> wf_ty t = true -> wt t v = true ->
+  N.of_nat (length path) < 2 ^ 64 -> Forall (fun b => b < 256) path ->
+  exists bs,
+    enc_reflect path t v = Some bs
+    /\ (forall rest, dec_reflect lookup (bs ++ rest) = Some (path, v, rest))
+    /\ (forall rest path' v' rest',
+          dec_reflect lookup (bs ++ rest) = Some (path', v', rest') ->
+          enc_reflect path' t v' = Some bs).
+Proof. exact ProtoCodecProofs.C12_component_roundtrip. Qed.
+
+(* distinct values of a schema have distinct bytes *)
+Theorem C12_component_bytes_determine_value :
+  forall path t v1 v2 bs,
+  wf_ty t = true -> enc_reflect path t v1 = Some bs -> enc_reflect path t v2 = Some bs -> v1 = v2.
+Proof. exact C12_component_injective. Qed.
+
+(* the decoder accepts only what the encoder produces *)
+Theorem C12_component_decoder_accepts_only_encodings :
+  forall lookup bs path v rest, dec_reflect lookup bs = Some (path, v, rest) ->
+  exists t pre, lookup path = Some t /\ enc_reflect path t v = Some pre /\ bs = pre ++ rest.
+Proof. exact reflect_canonical. Qed.
+
+(* the hypotheses are met by one message of every kind (both address families) *)
+Theorem C12_wf_is_inhabited : Forall wf_msg ex_msgs /\ length ex_msgs = 13%nat.
+Proof. exact (conj ex_msgs_wf eq_refl). Qed.
+
+(* the functions the correspondence check runs are the ones the theorems are about *)
+Theorem C12_executed_model_is_specified_model :
+  (forall m, encode_fast m = encode m) /\ (forall bs, decode_fast bs = decode bs)
+  /\ (forall path t v, enc_reflect_fast path t v = enc_reflect path t v)
+  /\ (forall lookup bs, dec_reflect_fast lookup bs = dec_reflect lookup bs).
+Proof. exact (conj encode_fast_eq (conj decode_fast_eq (conj enc_reflect_fast_eq dec_reflect_fast_eq))). Qed.
+
+Print Assumptions C12_source_message_layout.
+Print Assumptions C12_message_roundtrip.
+Print Assumptions C12_message_bytes_determine_message.
+Print Assumptions C12_component_roundtrip.
+Print Assumptions C12_component_bytes_determine_value.
+Print Assumptions C12_component_decoder_accepts_only_encodings.
+Print Assumptions C12_wf_is_inhabited.
+Print Assumptions C12_executed_model_is_specified_model.
